@@ -19,6 +19,8 @@ Closing a socket that is already closed (`closed_again`) is a no-op on the table
 Operations of different threads on different sockets of one controller that overlap in time are explained by
 *some* sequential order (`clone()` + the same expectations); implicit binds (`expect_implicit`) follow the rule of the
 anonymous bind.
+Hostile names: a str that cannot be encoded, control / non-ASCII characters, a wrong prefix are bad names (EFAULT);
+a well-formed name of more than 255 octets may be refused (EFAULT) or bound (free address in 16-31) - not specified.
 Name lookups are a pure function of the table (`lookup_allowed`): the answer to one request never depends on
 other requests that travel with it in the same SNL PDU (`lookup_batch`).
 """
@@ -34,6 +36,7 @@ DYNAMIC = range(32, 64)
 RESERVED = (0, 1)
 
 NO_ADDRESS_CODES = frozenset([errno.EADDRNOTAVAIL, errno.EAGAIN, errno.EADDRINUSE])
+MAX_NAME_OCTETS = 255       # length octet of the SN TLV (CONNECT); an SDREQ carries one octet less
 
 # Service name URIs: "urn:nfc:sn:<name>" (well-known) and "urn:nfc:xsn:<domain>:<name>" (external).
 # Only names that are clearly valid / clearly invalid are classified; everything else is None (not judged).
@@ -107,6 +110,10 @@ class AddrModel(object):
     def free(self, rng):
         return [a for a in rng if not self.occupied(a)]
 
+    def only_tainted(self, addrs):
+        """every one of these addresses is tainted (no prediction: it may in fact be occupied)"""
+        return bool(addrs) and all(a in self.tainted_addr for a in addrs)
+
     def holders(self, a):
         return sorted(self.at.get(a, ()))
 
@@ -154,6 +161,9 @@ class AddrModel(object):
             return Expect("rebind-bound-socket", errs=[errno.EINVAL])
         if arg is None:
             free = self.free(DYNAMIC)
+            if free and self.only_tainted(free):
+                # the only addresses the table shows as free are ones it makes no prediction about any more
+                return Expect("anonymous-rest-tainted", ok=free, errs=[errno.EAGAIN])
             if free:
                 return Expect("anonymous", ok=free)
             return Expect("anonymous-exhausted", errs=[errno.EAGAIN])
@@ -182,6 +192,15 @@ class AddrModel(object):
             return Expect("name-unclassified", judged=False)
         if cls is False:
             return Expect("name-invalid", errs=[errno.EFAULT])
+        if len(name) > MAX_NAME_OCTETS:
+            # well-formed but longer than any SN / SDREQ parameter can carry: whether such a name is a bad name
+            # (EFAULT) or gets an address nobody can ever ask for is not specified -> either outcome class
+            if name in self.names:
+                return Expect("name-longer-than-255-registered", errs=[errno.EADDRINUSE, errno.EFAULT])
+            free = self.free(NAMED) if name not in WKS_STRICT else []
+            if free:
+                return Expect("name-longer-than-255", ok=free, errs=[errno.EFAULT])
+            return Expect("name-longer-than-255-exhausted", errs=[errno.EFAULT] + sorted(NO_ADDRESS_CODES))
         if name in self.names or name == "urn:nfc:sn:sdp":
             return Expect("name-registered", errs=[errno.EADDRINUSE])
         if 0 in self.lookup_allowed(name) and len(self.lookup_allowed(name)) > 1:
@@ -195,6 +214,8 @@ class AddrModel(object):
                 return Expect("wks-address-occupied", errs=[errno.EADDRINUSE, errno.EADDRNOTAVAIL])
             return Expect("wks", ok=[a])
         free = self.free(NAMED)
+        if free and self.only_tainted(free) and name not in WKS_LENIENT:
+            return Expect("name-rest-tainted", ok=free, errs=NO_ADDRESS_CODES)
         if name in WKS_LENIENT:
             a = WKS_LENIENT[name]
             ok = list(free) + ([] if self.occupied(a) else [a])
@@ -212,6 +233,8 @@ class AddrModel(object):
         if self.sock[sid].addr is not None:
             return Expect("already-bound", ok=[self.sock[sid].addr])
         free = self.free(DYNAMIC)
+        if free and self.only_tainted(free):
+            return Expect("implicit-rest-tainted", ok=free, errs=[errno.EAGAIN])
         if free:
             return Expect("implicit", ok=free)
         return Expect("implicit-exhausted", errs=[errno.EAGAIN])
